@@ -21,7 +21,7 @@ import (
 // strPool: strings without characters that make the error text ambiguous
 // (no double quote, no "; ", no explanation label) and without rule syntax.
 var strPool = []string{"a", "ab", "abc", "abcd", "abcde", "测", "测试", "测试测", "a测b", "x1", "007", "12", "5", "0", "13812345678", "a@b.cd", "1.5", "x y", "A-B_c", "😀a", "éx",
-	"100%", "%d%s", "%!v", "a/b", "a\\b", "谬误", "丯", strings.Repeat("x", 63), strings.Repeat("y", 64), strings.Repeat("z", 257)} // (%: the text may end up in a format string; 谬/丯: code points ending in 0x2C / 0x2F)
+	"100%", "%d%s", "%!v", "a/b", "a\\b", "谬误", "丯", "İstanbul", "\u212aelvin", "※‹›‼", strings.Repeat("x", 63), strings.Repeat("y", 64), strings.Repeat("z", 257)} // (%: the text may end up in a format string; 谬/丯: code points ending in 0x2C / 0x2F)
 
 var alphabetRunes = []rune("abcXYZ019 _-.:/测试验证😀é%谬")
 
@@ -548,7 +548,7 @@ func (g *structGen) genStruct(depth int) (desc.T, desc.V) {
 		if g.unexported && rapid.IntRange(0, 7).Draw(g.t, "unexported") == 0 {
 			f.Name = strings.ToLower(f.Name) + "x"
 			if rapid.IntRange(0, 3).Draw(g.t, "nonASCIIUnexp") == 0 {
-				f.Name = []string{"é", "ω", "д", "ñ"}[i%4] + f.Name // unexported, first letter outside ASCII
+				f.Name = []string{"é", "ω", "д", "ñ", "ǅ", "ǲ"}[i%6] + f.Name // unexported, first letter outside ASCII (ǅ, ǲ: TITLE case is not upper case)
 			}
 		} else if rapid.IntRange(0, 11).Draw(g.t, "nonASCIIName") == 0 {
 			f.Name = []string{"É", "Ω", "Д", "Ñ"}[i%4] + strings.ToLower(f.Name) // exported: Go's rule is "upper-case letter", not A-Z
